@@ -140,7 +140,7 @@ func (e *EvalCtx) ident(name string) Val {
 			return e.object(obj)
 		}
 	}
-	if tp, ok := e.c.eng.allPkgs[name]; ok && isHeliosPkg(tp) {
+	if _, ok := e.c.eng.allPkgs[name]; ok {
 		return Val{K: KOpaque, T: "pkg:" + name}
 	}
 	if name == "TZERO" {
